@@ -70,6 +70,13 @@ def action (rest : List String) : Option (M String) :=
   | ["inst", i, k] => some (do
       modify fun w => { w with instRunning := w.instRunning.set i.toNat! (k == "2"), instChecked := w.instChecked.set i.toNat! (k == "1") }
       return "")
+  | ["remove", i, p] => some (do
+      -- Context.on_process_removed_event: the entry of the instance is deleted (`remove_identifier`)
+      let w ← get
+      let x ← proc p.toNat!
+      if acceptsEvents w i.toNat! && (getInfo x.infos i.toNat!).isSome then
+        setProc p.toNat! { x with infos := x.infos.del i.toNat! }
+      return "")
   | ["disable", i, p, dis] => some (do
       disableProcess i.toNat! p.toNat! (s2b dis)
       let x ← proc p.toNat!
